@@ -133,8 +133,9 @@ type ConstraintSet = HashSet<Constraint>;
 #[derive(Clone, Hash, PartialEq, Eq)]
 struct Constraint {
     pub meta: Meta,
-    pub lhe: Expression,
-    pub rhe: Expression,
+    /// The two sides of a constraint `lhe === rhe`, or the value of a
+    /// constraint assignment `target <== value`.
+    pub expressions: Vec<Expression>,
     /// The signal (or component input) assigned by a constraint assignment `<==`.
     pub target: Option<(VariableName, Vec<AccessType>)>,
 }
@@ -142,14 +143,12 @@ struct Constraint {
 impl Constraint {
     fn new(
         meta: &Meta,
-        lhe: &Expression,
-        rhe: &Expression,
+        expressions: &[&Expression],
         target: Option<(&VariableName, &[AccessType])>,
     ) -> Constraint {
         Constraint {
             meta: meta.clone(),
-            lhe: lhe.clone(),
-            rhe: rhe.clone(),
+            expressions: expressions.iter().map(|&expression| expression.clone()).collect(),
             target: target.map(|(var, access)| (var.clone(), access.to_vec())),
         }
     }
@@ -198,16 +197,16 @@ impl SignalUse {
         self.assignments.insert(Assignment::new(meta, var, access, degree));
     }
 
-    /// Add a constraint `lhe === rhe`, or `target <== rhe`.
+    /// Add a constraint `lhe === rhe` (two expressions, no target), or a
+    /// constraint assignment `target <== value` (one expression).
     fn add_constraint(
         &mut self,
-        lhe: &Expression,
-        rhe: &Expression,
+        expressions: &[&Expression],
         meta: &Meta,
         target: Option<(&VariableName, &[AccessType])>,
     ) {
-        trace!("adding constraint `{lhe:?} === {rhe:?}`");
-        self.constraints.insert(Constraint::new(meta, lhe, rhe, target));
+        trace!("adding constraint on `{expressions:?}`");
+        self.constraints.insert(Constraint::new(meta, expressions, target));
     }
 
     /// Get all assignments.
@@ -221,12 +220,12 @@ impl SignalUse {
             .iter()
             .filter(|constraint| {
                 // The assigned signal may be the input signal of a component.
-                let lhe = constraint.lhe.signals_read().iter();
-                let rhe = constraint.rhe.signals_read().iter();
-                let lhe_ports = constraint.lhe.components_read().iter();
-                let rhe_ports = constraint.rhe.components_read().iter();
-                let is_read = lhe.chain(rhe).chain(lhe_ports).chain(rhe_ports).any(|signal_use| {
-                    signal_use.name() == signal && may_alias(signal_use.access(), access)
+                let is_read = constraint.expressions.iter().any(|expression| {
+                    let signals = expression.signals_read().iter();
+                    let ports = expression.components_read().iter();
+                    signals.chain(ports).any(|signal_use| {
+                        signal_use.name() == signal && may_alias(signal_use.access(), access)
+                    })
                 });
                 let is_target = constraint
                     .target
@@ -302,14 +301,17 @@ fn visit_statement(stmt: &Statement, signal_use: &mut SignalUse) {
                 // record the constraint added for each constraint assignment
                 // found.
                 AssignOp::AssignConstraintSignal => {
-                    let lhe = Expression::Variable { meta: meta.clone(), name: var.clone() };
-                    signal_use.add_constraint(&lhe, rhe, meta, Some((var, &access)))
+                    // For `var[access] <== value` the RHS is an update expression, which also
+                    // reads the previous value of (all of) `var`. That is not a use of the
+                    // signals constrained here.
+                    let value = if let Update { rhe, .. } = rhe { rhe.as_ref() } else { rhe };
+                    signal_use.add_constraint(&[value], meta, Some((var, &access)))
                 }
                 AssignOp::AssignLocalOrComponent => {}
             }
         }
         ConstraintEquality { meta, lhe, rhe } => {
-            signal_use.add_constraint(lhe, rhe, meta, None);
+            signal_use.add_constraint(&[lhe, rhe], meta, None);
         }
         _ => {}
     }
